@@ -124,6 +124,26 @@ PROPS['C18'] = {
                     'the closure handed to execDetached is not executed symbolically (the bounded stand-in drains the queue)'],
 }
 
+PROPS['C13'] = {
+    'sidecars': ['contracts/C13_store.py'],
+    'plugins': ['sqlmodel'],
+    'level': 'proof',
+    'explanation': 'Every method of LiteSessionStore / LiteIdentityKeyStore (saveIdentity, isTrustedIdentity, getLocalRegistrationId) / '
+                   'LitePreKeyStore / LiteSignedPreKeyStore / LiteSenderKeyStore under contract against an abstract table view: functional '
+                   'postconditions over the WHOLE table, durability (D == W at return) and crash atomicity asserted after EVERY statement '
+                   'and commit event of the call (the record being replaced is its previous or its new value, never missing if it existed; '
+                   'all other records untouched). setAsSent: loop invariant, flags exactly the given ids in one transaction. '
+                   'Relative to the assumed transactional model of sqlite3; the SQL effects are derived from the real statement literals '
+                   'and the real CREATE TABLE text on every run. The history x crash-point x reopen claim follows by induction '
+                   '(precondition W == D is re-established by every operation).',
+    'native_facts': [{'name': 'sqlite3 model probes', 'cmd': ['bounded/sqlite_probe.py']}],
+    'assumptions': ['transactional model of sqlite3 (pyvc/sqlmodel.py): DML acts on the working state, commit() is atomic, a crash leaves '
+                    'the durable state; validated by bounded/sqlite_probe.py against the real module on every run',
+                    'python-axolotl record classes are pure functions of their serialized bytes; record.serialize() is a pure getter',
+                    'whole-table SELECTs (all rows / unsent rows / max key) are uninterpreted functions of the table state',
+                    'LiteIdentityKeyStore.__init__/_storeLocalData/getIdentityKeyPair and LiteAxolotlStore delegations are not under contract'],
+}
+
 NOT_APPLICABLE = {
     'C11': 'quantifies over thread interleavings (2-4 sender threads through lock/queue operations); no verifier available here '
            'has a thread or permission model and sequential contracts cannot express "for every schedule" (DESIGN.md section 8)',
